@@ -171,12 +171,16 @@ class SimExecutor:
         started = set()
 
         def submit_ready():
-            for k in sorted(pending, key=str):
-                if k in started:
-                    continue
-                if all(d in cache for d in pending[k]):
-                    started.add(k)
-                    self._add_graph_job(k, tids[k], graph, blobs, cache, pending[k])
+            changed = True
+            while changed:  # a task skipped because a dependency failed may unblock (and fail) its own dependants
+                changed = False
+                for k in sorted(pending, key=str):
+                    if k in started:
+                        continue
+                    if all(d in cache for d in pending[k]):
+                        started.add(k)
+                        self._add_graph_job(k, tids[k], graph, blobs, cache, pending[k])
+                        changed = changed or k in cache
 
         submit_ready()
         prev_finish = self.sched.on_finish
